@@ -906,3 +906,24 @@ def loop_exit_switches(fn, body):
             if any(x not in body for x in tg) and any(x in body for x in tg):
                 out.append(b)
     return out
+
+
+def return_table(prog, fn):
+    """[(block, rendered value assigned to the return place, [dominating atom texts])]"""
+    from . import cond as C
+    pv = prog.prov(fn)
+    out = []
+    for bb, b in enumerate(fn.blocks):
+        if b["cleanup"] or not fn.cfg().reachable(bb):
+            continue
+        for st in b["stmts"]:
+            if st["k"] == "assign" and Place(st["pl"]).is_local() and Place(st["pl"]).local == 0:
+                out.append((bb, render(pv.of_rvalue(st["rv"])), [a.text for a in C.conditions(prog, fn, bb)]))
+        t = b["term"]
+        if t["k"] == "call" and Place(t["dest"]).is_local() and Place(t["dest"]).local == 0:
+            c = callee_of(t)
+            if "from_residual" in c:
+                out.append((bb, "<propagate error>", [a.text for a in C.conditions(prog, fn, bb)]))
+            else:
+                out.append((bb, render(pv.of_call(t)), [a.text for a in C.conditions(prog, fn, bb)]))
+    return out
